@@ -147,6 +147,21 @@ CLAIMED = {
                  "enumerator once per element.  Not decided: literal scanning (get_number, character escapes), int overflow."),
         "note": "Trusted: clang 14 AST/CFG; ivf/grammar.py's reading of the .yxx; spec tables cxx_precedence.json / evaluator.json.",
     },
+    "C15": {
+        "level": "other",
+        "design_ref": "DESIGN.md section 3, C15 (R15.1-R15.4, R15.6, R15.7)",
+        "technique": "switch exhaustiveness vs constructible values, who-may-call abort/exit, gated reachability for size/zero guards, exit-status must-analysis",
+        "text": ("Decides a family of necessary conditions for front-end totality, each naming the crash it excludes: every switch whose default "
+                 "reaches abort() has a case for each constructible value (expression types, operators, type traits, declarator modifiers); "
+                 "abort/exit outside main() only at two frozen, reasoned sites and _error_abort is never set; std::string positions of the shapes "
+                 "literal k / size()-k / size()-size() and subscripts X[X.size()-k] are dominated by a size test (a throwing string member is "
+                 "abort() under -fno-exceptions); integer divisions with a computed divisor are guarded; parse_file returns "
+                 "get_error_count() == 0, every error() counts, a failed parse exits non-zero and no output file is opened before the parse "
+                 "loop completed; macro expansion inserts the macro into the ignore set before recursing.  One known finding (F-C15d: function-"
+                 "like macros are not suppressed while their own expansion is rescanned) is reported as KNOWN-FINDING.  Not decided: general "
+                 "memory safety and termination of the hand-written scanners and of bison error recovery over all byte strings."),
+        "note": "Trusted: clang 14 AST/CFG/call graph; grammar reader; positions that are loop indices or find() results are enumerated, not judged.",
+    },
 }
 
 NOT_APPLICABLE = {
